@@ -534,9 +534,11 @@ func (e *FnEnc) encodeExit() {
 				rt := e.evalBool(c.E, renv, c)
 				e.flushFacts()
 				parent.subs = append(parent.subs, &Obligation{Name: fmt.Sprintf("%s@return%d", parent.Name, k+1), Kind: "ensures", Props: parent.Props, Fn: parent.Fn, nAsserts: len(e.asserts), Guard: r.guard, Goal: rt, enc: e})
+				e.assume(rt) // later clauses may use this one (each is proved before it is assumed)
 			}
 			e.curGuard, e.st = saveG, saveSt
 		}
+		e.assume(t)
 	}
 	e.frameObligations()
 }
